@@ -248,12 +248,16 @@ impl Selector {
         // info!("io timeout = {:?}", dur);
         #[cfg(may_verif)]
         io.io_flag.mark("t.arm", timeout.as_nanos() as u64, 0);
-        let (h, b_new) = self.vec[id].timer_list.add_timer(timeout, io.timer_data());
+        let mut b_new = false;
+        io.arm_timer(|data| {
+            let (h, is_new) = self.vec[id].timer_list.add_timer(timeout, data);
+            b_new = is_new;
+            h
+        });
         if b_new {
             // wake up the event loop thread to recall the next wait timeout
             self.wakeup(id);
         }
-        io.timer.borrow_mut().replace(h);
         #[cfg(may_verif)]
         io.io_flag.mark("t.set", 0, 0);
     }
